@@ -209,6 +209,7 @@ def numeric_ub_search(chk, repo, d, tier, pr, broken):
     plus random ones: a sanitizer abort, a crash, or an answer different from `Spec.numOp` is a failing input for
     the numeric part of C11 (Props/C11Ops)."""
     import os
+    import subprocess
     import c01
     import opmods
     import runtime_ops as ro
@@ -225,8 +226,30 @@ def numeric_ub_search(chk, repo, d, tier, pr, broken):
         except Exception as e:
             broken.append({"kind": "e2e-build", "msg": "opcode module, %s %s: %s" % (cc, " ".join(copts), str(e)[-800:])})
             continue
-        real = ro.run_lines(exe, elines)
+        # one batch per opcode: an opcode whose emitted statement is undefined aborts on many operands; three crashing operands
+        # are enough evidence, the rest of that opcode's operands is skipped (a crash is an answer, never a tool failure)
+        by_op = {}
         for i, (op, vals) in enumerate(ecases):
+            by_op.setdefault(op[0], []).append(i)
+        real = [None] * len(ecases)
+        for opname, idxs in by_op.items():
+            pos = 0
+            crashes = 0
+            while pos < len(idxs) and crashes < 3:
+                chunk = idxs[pos:]
+                p = subprocess.run([exe], input="\n".join(elines[i] for i in chunk) + "\n", stdout=subprocess.PIPE, stderr=subprocess.PIPE, text=True, timeout=600)
+                out = p.stdout.splitlines()
+                for i, o in zip(chunk, out):
+                    real[i] = o
+                if len(out) >= len(chunk):
+                    break
+                msg = [l for l in p.stderr.splitlines() if "runtime error" in l][:1] or p.stderr.strip().splitlines()[-1:] or [""]
+                real[chunk[len(out)]] = "crash rc=%s %s" % (p.returncode, msg[0][-160:])
+                crashes += 1
+                pos += len(out) + 1
+        for i, (op, vals) in enumerate(ecases):
+            if real[i] is None:
+                continue
             ran += 1
             bad = real[i].startswith("crash") or (espec is not None and not ro.same_result(real[i], espec[i]))
             chk.count_case(("ops-ubsan", cc, copts, op[0], vals), True, None)
